@@ -12,6 +12,33 @@ CHECKS = {
    note="Trusted: TLC, the Json module, the harness's event logging (pointer identity = <<key,generation>>); bounds: <=8 keys, <=8 buckets in traces; 3-4 keys, 2 buckets, depth 5-6 exhaustively."),
 }
 
+MV_NOTE = ("Trusted: TLC and its Json module; the harness's event logging; the verif gate (collection workers are parked at list begin and "
+           "stepped explicitly, so traces are totally ordered). Bounds: exhaustive instances 2-3 keys, 1-2 values, 1-2 writers, 2-4 epochs; "
+           "validated histories <= 20 keys (300 in the visitor profile), <= 56 snapshots, both comparators, both memory modes. "
+           "Concurrent schedules of this property are covered by the C03/C04/C08 checks, not here.")
+CHECKS.update({
+ "C01": dict(
+   technique="TLA+ model NitroMVCC.tla (invariant C01_SnapshotImmutable) exhausted by TLC; state-graph transitions replayed on the real store; TLC trace validation of recorded histories with every open snapshot re-scanned after every event",
+   text="Exhaustive TLC over all histories of the bounded instances shows the design keeps every open snapshot's visible sequence equal to the view taken at creation; the real code is bound by replaying the graph's transitions and seeded random histories (several writers, out-of-order Open/Close, GC lists held at the verif gate and unlinked at arbitrary later points, scans with refresh rates 0..5) and validating every recorded scan and Count() against the view with TLC. Model checking + trace validation fits: the property is a state invariant over a small control state and must hold at every step of every history, which is exactly what TLC evaluates on both the model and the recorded executions.",
+   design_ref="DESIGN.md 4.4, 6 (C01)", note=MV_NOTE),
+ "C02": dict(
+   technique="TLA+ model NitroMVCC.tla (C02_Results, C02_LiveMatches, C02_Counts) exhausted by TLC; edge-cover replay on the real store; TLC trace validation of random sequential histories",
+   text="TLC proves for the bounded instances that the transcribed Put/Delete/GetNode paths ((key,bornSn) ordering, exists-comparator on the predecessor, same-epoch physical vs cross-epoch deadSn delete) agree with a reference set in every reachable state; every transition of the dumped graph (thorough) or a seeded sample (quick) is executed on the real store in all four comparator/memory variants, plus long random histories through 1-3 writers; TLC validates each result, the live set found in the structure, and Count()/ItemsCount/content of every new snapshot.",
+   design_ref="DESIGN.md 4.4, 6 (C02)", note=MV_NOTE),
+ "C06": dict(
+   technique="TLA+ model NitroMVCC.tla (C06_Retained, C06_NoEarlyUnlink, C06_CollectorProgress, C06_Precise) exhausted by TLC; edge-cover replay; TLC trace validation of the physical chain, statistics and memory after every event",
+   text="TLC exhausts all close orders with two collection workers and shows retention while visible and exact collection once no released list is pending; on the real code the level-0 chain with (key,value,bornSn,deadSn,mark), node count, soft deletes, MemoryInUse (against a walk with the code's own size functions), GetLastGCSn and GetSnapshots are recorded after every event of graph-derived and random histories (GC lists held at the gate, released in random order) and judged by TLC. Reading: garbage of epoch d may stay until snapshot d is collected (implementation's order); completeness is required once nothing is pending.",
+   design_ref="DESIGN.md 4.4, 6 (C06)", note=MV_NOTE + " Contended deletes by several goroutines (gc-list integrity) belong to the concurrent drivers."),
+ "C09": dict(
+   technique="TLA+ model NitroMVCC.tla (C09_IterExact) exhausted by TLC with Refresh enabled at every position; every iterator transition replayed on the real iterator; TLC trace validation of random iterator histories",
+   text="The model iterator walks the physical version list exactly as iterator.go (key-only seek lands on the oldest physical version, skipUnwanted, refresh counter); TLC shows it always equals the abstract iterator over the snapshot's view for all histories/rates/refresh placements of the bounded instances; the real iterator is driven through the graph's transitions and random histories with invisible versions pinned, and (Valid, Get) of every open iterator is validated by TLC after every event.",
+   design_ref="DESIGN.md 4.4, 6 (C09)", note=MV_NOTE),
+ "C10": dict(
+   technique="TLA+ model NitroMVCC.tla (C10_VisitPartition over all pivot choices) exhausted by TLC; TLC trace validation of recorded Visitor calls (per-shard sequences, error, termination watchdog)",
+   text="TLC checks that for every choice of pivots among the physical versions the shards' walks concatenate to the snapshot's view; real Visitor calls on latest and older snapshots (other versions present), shards 1..64 and > item count, concurrency 1/2/8, injected callback errors, databases up to 300 items, are recorded and judged by TLC: concatenation in shard order equals the view, error returned iff a callback failed, the call returns within its watchdog.",
+   design_ref="DESIGN.md 4.4, 6 (C10)", note=MV_NOTE + " Pivots actually chosen by GetRangeSplitItems are not logged; the model covers a superset."),
+})
+
 NOT_YET = "check not built yet (work in progress; see DESIGN.md section 8.1 build order)"
 
 def main():
